@@ -145,6 +145,8 @@ class Interp:
             return VAny(PyVal.PD(z3.IntVal(obj.toordinal())))
         if isinstance(obj, _dt.timedelta):
             return VAny(PyVal.PTd(z3.IntVal(hash(obj) % 1000003)))
+        if type(obj) is object:
+            return VObj(object, tag='sentinel')
         if type(obj).__module__.startswith('serif'):
             return VObj(type(obj), tag='global:' + type(obj).__name__)
         raise Unsupported(f'cannot lift {obj!r}')
@@ -167,7 +169,13 @@ class Interp:
         raise PyRaise(VExc(pycls))
 
     def choose_truthy(self, v):
-        return self.ex.choose(truthy(v))
+        return self.ex.choose(truthy(self.resolve(v)))
+
+    def resolve(self, v):
+        """Decide whether a tagged value is the sentinel (path split when unknown)."""
+        if isinstance(v, VTagged):
+            return v.sentinel if self.ex.choose(v.tag) else v.val
+        return v
 
     def assumption(self, text):
         self.assumptions.add(text)
@@ -236,7 +244,7 @@ class Interp:
                 parts.append(z3.StringVal(p.value))
             else:
                 v = self.eval(p.value, env)
-                parts.append(self.B.str_term(self, v, repr_=(p.conversion == 114)))
+                parts.append(self.B.str_term(self, self.resolve(v), repr_=(p.conversion == 114)))
         if not parts:
             return VStr('')
         t = parts[0]
@@ -279,6 +287,7 @@ class Interp:
         return self.unary(name, v)
 
     def unary(self, name, v):
+        v = self.resolve(v)
         if isinstance(v, VInt):
             if name == 'neg':
                 return VInt(-v.t)
@@ -306,6 +315,7 @@ class Interp:
         return self.binary(BINOPS[type(node.op)], a, b)
 
     def binary(self, name, a, b):
+        a, b = self.resolve(a), self.resolve(b)
         if isinstance(a, VBool) and isinstance(b, (VInt, VBool)):
             a = VInt(z3.If(a.t, 1, 0))
         if isinstance(b, VBool) and isinstance(a, VInt):
@@ -385,6 +395,7 @@ class Interp:
         return self.cmp(name, a, b)
 
     def cmp(self, name, a, b):
+        a, b = self.resolve(a), self.resolve(b)
         if name == 'eq':
             return VBool(self.py_eq(a, b))
         if name == 'ne':
@@ -421,6 +432,11 @@ class Interp:
         return z3.Or(z3.And(z3.Not(eq0), head), z3.And(eq0, self.tuple_cmp(name, xs[1:], ys[1:])))
 
     def is_(self, a, b):
+        if isinstance(a, VTagged) and b is a.sentinel:
+            return a.tag
+        if isinstance(b, VTagged) and a is b.sentinel:
+            return b.tag
+        a, b = self.resolve(a), self.resolve(b)
         if isinstance(a, VNone) or isinstance(b, VNone):
             o = b if isinstance(a, VNone) else a
             if isinstance(o, VNone):
@@ -454,6 +470,7 @@ class Interp:
         raise Unsupported(f'is on {a!r}, {b!r}')
 
     def py_eq(self, a, b):
+        a, b = self.resolve(a), self.resolve(b)
         if isinstance(a, VObj) and a.tag == 'kindset' or isinstance(b, VObj) and b.tag == 'kindset':
             ks, other = (a, b) if isinstance(a, VObj) and a.tag == 'kindset' else (b, a)
             if isinstance(other, VSet) and len(other.items) == 1 and isinstance(other.items[0], VKind):
@@ -561,6 +578,7 @@ class Interp:
 
     # ------------------------------------------------------------------ attribute access
     def getattr(self, v, attr):
+        v = self.resolve(v)
         if isinstance(v, VModule):
             return self.lift(getattr(v.pymod, attr))
         if isinstance(v, VDType):
@@ -820,6 +838,7 @@ class Interp:
 
     # ------------------------------------------------------------------ calls
     def call(self, f, args, kwargs, node=None):
+        args = [self.resolve(a) for a in args]
         if isinstance(f, VFunc):
             if f.kind == 'bound':
                 return self.call(f.func, [f.self] + list(args), kwargs, node)
@@ -885,7 +904,7 @@ class Interp:
     def _flat_sig(self, a):
         if isinstance(a, VNone):
             return 'N'
-        for cls, tag in ((VBool, 'B'), (VInt, 'I'), (VStr, 'S'), (VAny, 'A'), (VKind, 'K'), (VDType, 'D')):
+        for cls, tag in ((VBool, 'B'), (VInt, 'I'), (VAny, 'A'), (VKind, 'K'), (VDType, 'D')):
             if isinstance(a, cls):
                 return tag
         if isinstance(a, VTuple):
